@@ -59,6 +59,17 @@ fn has_non_global_surrounding_splits(txs: &[Tx], idx: usize) -> bool {
 pub fn replace_global_security_splits(
     sorted_security_txs: &mut Vec<Tx>,
 ) -> Result<(), SError> {
+    let no_extra_holders: [Affiliate; 0] = [];
+    replace_global_security_splits_for_holders(sorted_security_txs, &no_extra_holders)
+}
+
+/// Same as replace_global_security_splits, but global splits are also converted
+/// for every affiliate in extra_holders: affiliates which hold the security
+/// without necessarily having a Tx of their own (an initial status).
+pub fn replace_global_security_splits_for_holders(
+    sorted_security_txs: &mut Vec<Tx>,
+    extra_holders: &[Affiliate],
+) -> Result<(), SError> {
     // First find all global splits and validate them
     let mut split_indices = Vec::new();
 
@@ -85,6 +96,11 @@ pub fn replace_global_security_splits(
     // Get all affiliates we need to create splits for
     let mut non_global_affiliates: Vec<_> =
         find_all_non_global_affiliates(sorted_security_txs).into_iter().collect();
+    for af in extra_holders {
+        if !non_global_affiliates.contains(af) {
+            non_global_affiliates.push(af.clone());
+        }
+    }
     // Expand splits in a fixed (affiliate id) order, not in hash order
     non_global_affiliates.sort_by(|a, b| a.id().cmp(b.id()));
 
